@@ -299,6 +299,40 @@ def _reftype(bp, memo):
         for i in range(1, n, 2):
             (ts[i] == it and ts[i + 1] == ts[0]) or _ill("array value entry")
         return ("Array", it, ts[0])
+    # ---- SMT-LIB operators without a pySMT node type (used by the independent reader)
+    if op == "XOR":
+        (n >= 2 and all_are(BOOL)) or _ill(op)
+        return BOOL
+    if op == "DISTINCT":
+        (n >= 2 and all(t == ts[0] for t in ts)) or _ill(op)
+        return BOOL
+    if op == "EQ":            # SMT-LIB = (also on Bool)
+        (n == 2 and ts[0] == ts[1]) or _ill(op)
+        return BOOL
+    if op == "NEG":
+        (n == 1 and ts[0] in (INT, REAL)) or _ill(op)
+        return ts[0]
+    if op in ("INT_MOD", "INT_DIV"):
+        (n == 2 and all_are(INT)) or _ill(op)
+        return INT
+    if op == "REAL_DIV":
+        (n == 2 and all_are(REAL)) or _ill(op)
+        return REAL
+    if op == "ABS":
+        (n == 1 and ts[0] == INT) or _ill(op)
+        return INT
+    if op == "TO_INT":
+        (n == 1 and ts[0] == REAL) or _ill(op)
+        return INT
+    if op == "IS_INT":
+        (n == 1 and ts[0] == REAL) or _ill(op)
+        return BOOL
+    if op == "BV_SMOD":
+        (n == 2 and is_bv(ts[0]) and ts[0] == ts[1]) or _ill(op)
+        return ts[0]
+    if op == "BV_REPEAT":
+        (n == 1 and is_bv(ts[0]) and isinstance(params[0], int) and params[0] >= 1) or _ill(op)
+        return ("BV", ts[0][1] * params[0])
     _ill("unknown operator %s" % op)
 
 
@@ -451,9 +485,13 @@ class EvalBudget(NoSemantics):
 class Evaluator(object):
     BUDGET = 60000
 
-    def __init__(self, interp, cards=None, budget=None):
+    def __init__(self, interp, cards=None, budget=None, window=None):
+        """window: optional {type: [values]} giving binders over unbounded sorts a finite range.
+        This is NOT SMT-LIB semantics; it is only used to compare two renderings of the *same*
+        formula (a faithful printer/reader pair agrees under any range of the binders)."""
         self.interp = interp
         self.cards = cards or {}
+        self.window = window
         self.tmemo = {}
         self.steps = 0
         self.budget = budget or self.BUDGET
@@ -488,7 +526,8 @@ class Evaluator(object):
         if op == "CONST":
             return params[1]
         if op in ("FORALL", "EXISTS"):
-            doms = [list(domain_iter(t, self.cards)) for (_, t) in params]
+            doms = [list(self.window[t]) if (self.window and t in self.window) else list(domain_iter(t, self.cards))
+                    for (_, t) in params]
             want_all = op == "FORALL"
             res = want_all
             unc = None
@@ -550,6 +589,35 @@ class Evaluator(object):
             return Fraction(a[0]) / Fraction(a[1])
         if op == "POW":
             raise NoSemantics("POW")
+        if op == "XOR":
+            r = a[0]
+            for x in a[1:]:
+                r = r != x
+            return r
+        if op == "DISTINCT":
+            t0 = self.ty(ch[0])
+            cs = [canon(v, t0, self.cards) for v in a]
+            return len(set(cs)) == len(cs)
+        if op == "EQ":
+            return val_eq(a[0], a[1], self.ty(ch[0]), self.cards)
+        if op == "NEG":
+            return -a[0]
+        if op == "INT_DIV":
+            return int_div(a[0], a[1])
+        if op == "INT_MOD":
+            if a[1] == 0:
+                raise Unconstrained()
+            return a[0] - a[1] * int_div(a[0], a[1])
+        if op == "REAL_DIV":
+            if a[1] == 0:
+                raise Unconstrained()
+            return Fraction(a[0]) / Fraction(a[1])
+        if op == "ABS":
+            return abs(a[0])
+        if op == "TO_INT":
+            return a[0].numerator // a[0].denominator
+        if op == "IS_INT":
+            return Fraction(a[0]).denominator == 1
         if op == "LE":
             return a[0] <= a[1]
         if op == "LT":
@@ -667,6 +735,13 @@ class Evaluator(object):
             return 1 if u == v else 0
         if op == "BV_TONATURAL":
             return u
+        if op == "BV_SMOD":
+            return bv_smod(u, v, w)
+        if op == "BV_REPEAT":
+            r = 0
+            for _ in range(params[0]):
+                r = (r << w) | u
+            return r
         raise NoSemantics(op)
 
 
